@@ -1,6 +1,12 @@
 package pilosa
 
-import "bytes"
+import (
+	"bytes"
+	"context"
+
+	"github.com/pilosa/pilosa/pql"
+	"github.com/pilosa/pilosa/stats"
+)
 
 // H25 (partial): attribute block diff and attribute encoding. The boltdb
 // attribute store itself (persistence, caching, block listing) is outside.
@@ -70,4 +76,107 @@ func VerifH25AttrCodec() {
 	c["s"] = "changed"
 	v, _ := out["s"].(string)
 	verifAssert(v == s, "cloneAttrs: mutating the clone leaves the source unchanged")
+}
+
+// H25c: the executor's bulk SetRowAttrs path (a query made only of
+// SetRowAttrs calls) over a map-backed attribute store with the documented
+// store semantics (merge, nil deletes): after the query, the row's attributes
+// are the previous ones updated by every call in order.
+
+type verifMemAttrStore struct {
+	AttrStore
+	m map[uint64]map[string]interface{}
+}
+
+func (s *verifMemAttrStore) apply(id uint64, attrs map[string]interface{}) {
+	cur := s.m[id]
+	if cur == nil {
+		cur = map[string]interface{}{}
+		s.m[id] = cur
+	}
+	for k, v := range attrs {
+		if v == nil {
+			delete(cur, k)
+		} else {
+			cur[k] = v
+		}
+	}
+}
+
+func (s *verifMemAttrStore) SetAttrs(id uint64, m map[string]interface{}) error {
+	s.apply(id, m)
+	return nil
+}
+
+func (s *verifMemAttrStore) SetBulkAttrs(m map[uint64]map[string]interface{}) error {
+	for id, attrs := range m {
+		s.apply(id, attrs)
+	}
+	return nil
+}
+
+func (s *verifMemAttrStore) Attrs(id uint64) (map[string]interface{}, error) {
+	return cloneAttrs(s.m[id]), nil
+}
+
+func verifAttrArg() (interface{}, int) {
+	k := verifChoice("val", 3)
+	switch k {
+	case 0:
+		return int64(5), 0
+	case 1:
+		return "x", 1
+	}
+	return nil, 2
+}
+
+func VerifH25BulkRowAttrs() {
+	store := &verifMemAttrStore{AttrStore: nopStore, m: map[uint64]map[string]interface{}{}}
+	frag := verifNewFragment(CacheTypeNone, 0)
+	fld := verifSetField("f", frag)
+	fld.rowAttrStore = store
+	idx := &Index{name: "i", fields: map[string]*Field{"f": fld}, Stats: stats.NopStatsClient}
+	n0 := &Node{ID: "n0"}
+	cl := &cluster{partitionN: defaultPartitionN, ReplicaN: 1, Hasher: &jmphasher{}, Node: n0}
+	cl.addNodeBasicSorted(n0)
+	e := &executor{Holder: &Holder{indexes: map[string]*Index{"i": idx}, Stats: stats.NopStatsClient}, Cluster: cl, Node: n0}
+
+	keys := []string{"a", "b"}
+	// expected value kind per key: -1 absent, 0 int, 1 string
+	want := map[string]int{"a": -1, "b": -1}
+	// an earlier query stored something
+	if verifChoice("prior", 2) == 1 {
+		k := keys[verifChoice("priorkey", 2)]
+		store.apply(7, map[string]interface{}{k: int64(5)})
+		want[k] = 0
+	}
+	ncalls := 1 + verifChoice("calls", verifBound("calls", 2))
+	calls := make([]*pql.Call, ncalls)
+	for i := range calls {
+		k := keys[verifChoice("key", 2)]
+		v, kind := verifAttrArg()
+		calls[i] = &pql.Call{Name: "SetRowAttrs", Args: map[string]interface{}{"_field": "f", "_row": uint64(7), k: v}}
+		if kind == 2 {
+			want[k] = -1
+		} else {
+			want[k] = kind
+		}
+	}
+	_, err := e.executeBulkSetRowAttrs(context.Background(), "i", calls, &execOptions{Remote: true})
+	verifReach("bulk row attrs executed")
+	verifAssert(err == nil, "bulk SetRowAttrs: no error")
+	got, _ := store.Attrs(7)
+	for _, k := range keys {
+		v, present := got[k]
+		switch want[k] {
+		case -1:
+			verifAssert(!present, "bulk SetRowAttrs: a key set to null (or never set) is absent")
+		case 0:
+			iv, ok := v.(int64)
+			verifAssert(present && ok && iv == 5, "bulk SetRowAttrs: integer value stored")
+		case 1:
+			sv, ok := v.(string)
+			verifAssert(present && ok && sv == "x", "bulk SetRowAttrs: string value stored")
+		}
+	}
 }
